@@ -39,6 +39,17 @@ class P:
         cases = []
         for q in qgen.INVALID:
             cases.append({"q": b64e(q), "expect": "reject", "kind": "invalid"})
+        # a scalar that is the left operand of a tighter operator on the right of a set operator: the right operand of the set operator is
+        # the whole product / comparison, not the scalar (D36)
+        v = lambda t: {"k": "vector", "text": t, "v": float(t)}
+        lit = lambda t: {"k": "lit", "toks": [t], "v": float(t)}
+        b = lambda l, op, r: {"k": "bin", "l": l, "op": op, "mod": {}, "r": r}
+        for ast in (b(v("1"), "or", b(lit("2"), "*", v("3"))), b(v("1"), "unless", b(b(lit("2"), "^", v("3")), ">", v("100"))),
+                    b(v("1"), "and", b(lit("1"), "+", v("2"))), b(v("1"), "or", b(b(lit("2"), "*", v("3")), "+", lit("4"))),
+                    b(b(lit("2"), "*", v("3")), "or", v("1"))):
+            toks = qgen.Renderer(rng, plain=True).expr(ast)
+            for style in ("tight", "spaced"):
+                cases.append({"q": b64e(qgen.layout(rng, toks, style)), "expect": b64e(qgen.dexpr(ast)), "kind": "valid-mixed"})
         for i in range(n):
             ast = g.query()
             r = qgen.Renderer(rng, plain=(i % 7 == 0))
